@@ -78,14 +78,14 @@ class GMEEngine(engines.HistEngine):
     props = {
         "C15": dict(monitor="c15",
                     rel={"route", "pools", "dial", "mes", "default", "call", "open", "census", "badop"},
-                    quick=dict(VERIF_N="700", VERIF_MAXOPS="10", VERIF_LIVE="20", VERIF_FLAP="25"),
-                    thorough=dict(VERIF_N="30000", VERIF_MAXOPS="16", VERIF_LIVE="25", VERIF_FLAP="600"),
+                    quick=dict(VERIF_N="700", VERIF_MAXOPS="10", VERIF_LIVE="20", VERIF_FLAP="60"),
+                    thorough=dict(VERIF_N="30000", VERIF_MAXOPS="16", VERIF_LIVE="25", VERIF_FLAP="1500"),
                     nontrivial=gme_nontrivial_c15,
                     rule=GEN + "non-trivial = at least two accepted configurations, or one plus a connectivity change / RPC"),
         "C16": dict(monitor="c16",
                     rel={"error", "route", "pools", "dial", "mes", "default", "open", "census", "badop"},
-                    quick=dict(VERIF_N="700", VERIF_MAXOPS="10", VERIF_LIVE="20", VERIF_FLAP="25"),
-                    thorough=dict(VERIF_N="30000", VERIF_MAXOPS="16", VERIF_LIVE="25", VERIF_FLAP="600"),
+                    quick=dict(VERIF_N="700", VERIF_MAXOPS="10", VERIF_LIVE="20", VERIF_FLAP="60"),
+                    thorough=dict(VERIF_N="30000", VERIF_MAXOPS="16", VERIF_LIVE="25", VERIF_FLAP="1500"),
                     nontrivial=gme_nontrivial_c16,
                     rule=GEN + "non-trivial = the history contains a rejected construction/update or a Close"),
     }
@@ -123,6 +123,11 @@ _COMMON = [
     "census = goroutines whose stack contains monitoredConn.monitor or that were created by newMonitoredConn), not part of "
     "the theorems; real RPCs (X) are only issued in live histories and must reach the server of the routed endpoint iff its "
     "pool is READY",
+    "a blocked update (UB) is, for the model, an ordinary update: the flapped endpoint is READY before and after, so the "
+    "state the model predicts is the state every correct interleaving of the parked monitor converges to (status sync at the "
+    "end of the update, stale outage report, recovery report; with zero delays Current() is again the top available endpoint); "
+    "the harness records the UB line only when all monitors are idle again, so the transient states are not observed and a "
+    "LOST recovery report shows as a failure of the C15 clauses update_status_synced (UB line) and follows_connectivity (P line)",
     "pickConn reads the maps without the lock (property C10): RPCs and route probes are never issued concurrently with "
     "updates; after Close only the pool table, the open connections and the census are compared (cancelled monitors may "
     "or may not deliver a last notification) and the monitors stop checking",
